@@ -26,6 +26,11 @@ def run(ctx):
         "list on the other, tcp/unix/udp/stdio/dns sampled with '' at a seeded position of a 3-4 channel table and the lists [''], everything-but-'', all, seeded; "
         "(B) tables WITHOUT such a channel and allow-lists with blank / white-space entries (one, repeated, mixed with real names at either end) on every server kind and on either "
         "websocket path: start-up must fail, else the endpoint is judged by the model (a non-empty list exposes exactly the configured names it contains); signatures of both carry the list's shape. "
+        "Allow-lists as sequences with REPEATED configured names (space repeated-allow-entry): lists shorter than, as long as and longer than the table, one name repeated alone "
+        "([p,p], [p,p,p]) and repeated names next to others ([p,q,p], lists that leave a channel out and lists that name every channel) - tcp: seeded (thorough: all) ordered two-channel "
+        "tables with [p,p], [q,q], every mixed list of length three and two of length four, one-channel tables with lists longer than the table, websocket: a repeated list on one path and "
+        "all / a proper list / another repeated list on the other, tcp/unix/ws/udp/stdio/dns sampled with tables of 2-5 channels (always a list of exactly the table's length that leaves a "
+        "channel out); every name is configured, so start-up must succeed and exactly the names occurring in the list are exposed. "
         "Concurrent family: on configurations with >= 2 exposed channels, bursts of 8 (udp 6, dns 3) simultaneous requests for DIFFERENT allowed names "
         "(every third burst mixed with refused names) on ONE session, through the real client (several listeners -> Upstreams.Connect at once) and through "
         "the raw client (several smux streams at once); per request: the banner it receives and eight bytes it pushes must belong to the target of ITS name "
